@@ -9,6 +9,7 @@ from py_gql import graphql_blocking, process_graphql_query
 from py_gql.exc import CoercionError, ExecutionError, GraphQLError, ResolverError
 from py_gql.execution import Executor
 from py_gql.execution.get_operation import get_operation
+from py_gql.lang import ast as _ast
 from py_gql.lang import parse
 from py_gql.utilities import coerce_variable_values
 from py_gql.validation import validate_ast
@@ -111,14 +112,19 @@ def _observe(fn):
     if _depth(res.data) > 64:
         # deeper than any generated operation can select (and than the model's 64 levels): not serialised
         return {"exc": "ResponseTooDeep", "msg": "response nesting exceeds 64 levels"}
-    if res.data is None and res.errors and all(isinstance(e, ExecutionError) for e in res.errors):
+    if res.data is None and res.errors and all(isinstance(e, (ExecutionError, CoercionError)) for e in res.errors):
+        # the request was aborted before execution: operation selection, or invalid @skip/@include
+        # arguments on the root selection set
         return {"rejected": type(res.errors[0]).__name__}
     errors = []
     for e in res.errors:
         kind = _classify_error(e)
         errors.append({
             "path": list(e.path) if getattr(e, "path", None) is not None else None,
-            "locs": [list(n.loc) if n.loc else None for n in getattr(e, "nodes", [])],
+            # an error of a directive's arguments points at the directive; Exec/Collect.v does not track
+            # which directive failed, the model leaves the location list of these errors empty
+            "locs": [] if (kind == "coercion" and e.nodes and isinstance(e.nodes[0], _ast.Directive))
+            else [list(n.loc) if n.loc else None for n in getattr(e, "nodes", [])],
             "kind": kind,
             "msg": e.message if kind == "resolver" else None,
             "ext": (dict(e.extensions) if e.extensions else e.extensions) if kind == "resolver" else None,
